@@ -58,7 +58,7 @@ theorem add_after_remove_no_overlap (l : Lay) (ok : l.Ok) (t : Nat) (b : BlkArg)
     table — no assumption beyond the property's own `WFTable` — the table `remove_block` leaves behind is well-formed again, for the
     file shortened by the removed block: every live range after the table and inside the file, no two overlapping, unused slots
     of size zero. What is missing for the full statement on such files is the byte level (that the rewritten table parses back to
-    this one and the file has exactly that length) and `add_block` (which needs the convention of C09 on top: unused slots
+    this one; that the file has exactly that length is now `C09.remove_any_table_wf_file`, session 5) and `add_block` (which needs the convention of C09 on top: unused slots
     point at the end of the data); both are covered on permuted and gappy files by the correspondence and the `wfB` judge only. -/
 theorem remove_any_table_wf_partial (s : TdfSt) (t : Nat) (now : Int) (flen pos : Nat) (ht : t ≠ 0)
     (hfind : findType t s.entries = some pos) (hwf : WFTable s.nEntries flen s.entries) :
